@@ -109,6 +109,8 @@ def _k1_job(job):
             if r == z3.sat: witness(full, WHAT[role])
             elif r == z3.unknown: part.inconc('solver unknown')
             s.pop()
+        if not part.findings and len(part.validate) < 1 and chk(s) == z3.sat:
+            part.validate.append(('tokens', (LC.model_bytes(s.model(), b),)))
         if len(part.samples) < 2: part.samples.append({'N': N, 'spans': [(x[0], x[1], x[2]) for x in spans], 'pc_terms': len(pr.pc)})
     M.explore(entry, on_path, prefixes=prefixes)
     part.queries += M.stats['smt']; part.encoded = set(M.encoded); part.models = set(M.models_used)
@@ -220,6 +222,11 @@ def _k2_job(job):
             s.add(z3.Or(bad))
             t = time.time(); r = s.check(); part.solver_s += time.time() - t; part.queries += 1
             if r == z3.sat: wit('C05/K2/content', 'preprocessing alters text outside the OSCAT description or moves a line break inside it')
+        if not part.findings and len(part.validate) < 1:
+            s2 = z3.Solver(); s2.add(valid, *pr.pc)
+            s2.add(*[z3.Or(x == 32, x == 10) for x in mb])      # blanking is the identity on such a body, so the real tokens must carry the source text
+            if s2.check() == z3.sat:
+                m2 = s2.model(); part.validate.append(('tokens', (bytes(x if isinstance(x, int) else m2.eval(x, True).as_long() for x in allb),)))
         if len(part.samples) < 1: part.samples.append({'lengths': [lp, lm, ls], 'out_len': len(out.b)})
     M.explore(entry, on_path)
     part.queries += M.stats['smt']; part.encoded = set(M.encoded); part.models = set(M.models_used)
@@ -289,6 +296,10 @@ def _k5_job(job):
                 s.push(); s.add(onb2, z3.Or(tobv(r.f[1].f[0], 32) != el, tobv(r.f[1].f[1], 32) != ec))
                 if chk() == z3.sat: wit('C05/K5/end-position', 'range end is not the line/character of the span end')
                 s.pop()
+                if not part.findings and len(part.validate) < 1 and start < end and N >= 2:
+                    s.push(); s.add(z3.And([z3.And(z3.UGE(x, 97), z3.ULE(x, 122)) for x in b]))
+                    if chk() == z3.sat: part.validate.append(('lsp_label', (LC.model_bytes(s.model(), b), start, end)))
+                    s.pop()
                 if len(part.samples) < 1: part.samples.append({'N': N, 'span': [start, end], 'pc_terms': len(pr.pc)})
             M.explore(entry, on_path)
     part.queries += M.stats['smt']; part.encoded = set(M.encoded); part.models = set(M.models_used)
